@@ -151,7 +151,7 @@ def run(R):
               "profiles with n,m<=4 up to voter order. Non-trivial = m>=3 and n>=2.")
     R.assumptions = ["numpy.random.choice is only observed (wrapped), never replaced"]
     items = []
-    cnt = 6000 if R.thorough else 250
+    cnt = 6000 if R.thorough else 600
     for t in range(cnt):
         m = R.rng.choice([1, 2, 3, 3, 4, 5, 6, 8])
         n = R.rng.choice([1, 2, 3, 4, 5, 6, 8, 12, 40, 65, 100, 129])
